@@ -48,6 +48,8 @@ def signature(F, b, _seen=None):
             n = re.sub(r"\{closure#\d+\}", "{closure}", n)
             if re.search(r"ops::Try|FromResidual|ops::Deref|IntoIterator|Iterator::next|clone::Clone|drop_in_place", n):
                 continue
+            if not (c.local and c.name in F.bodies) and re.search(r"::(iter|iter_mut|into_iter|values_mut|try_for_each|for_each|any|all|contains|eq|ne|index|index_mut|as_slice|as_ref|borrow|borrow_mut)$", n):
+                continue          # how a collection is walked or searched (a loop or an adaptor, `contains` or `any(==)`) is not what the two sides must agree on
             calls[norm(n)] += 1
         for bi, si, s in body.stmts():
             rv = s.get("rv")
@@ -203,15 +205,34 @@ def run(ctx):
     ok = len(rm) == 1 and len(orm) == 1 and bool(rets) and all(dr.dominates(rm[0].bb, r) and dr.dominates(orm[0].bb, r) for r in rets)
     ctx.ob("R-ORDER", "encrypt-dict-removed|decrypt_raw", ok, "every Ok return passes trailer.remove(Encrypt) and objects.remove(id)", dr.where(),
            what="decrypt_raw can return Ok without removing the Encrypt entry and the encryption dictionary object")
-    do = lib.local_calls(F, dr, "encryption::decrypt_object")
+    def site(c):
+        """where in decrypt_raw a call happens: its own block, or (a call inside a closure) the block that makes the closure"""
+        if c.body is dr:
+            return c.bb
+        for bi_, si_, st_ in dr.stmts():
+            rv_ = st_.get("rv")
+            if rv_ and rv_["k"] == "agg" and rv_["kind"].get("a") == "closure" and rv_["kind"]["def"] == c.body.path:
+                return bi_
+        return None
+    drc = F.with_closures(dr)
+    do = [c for x in drc for c in x.calls if c.local and c.cname.endswith("encryption::decrypt_object")]
     skip = False
     if len(do) == 1:
         import inv
-        gs = inv.rendered_guards(dr, do[0].bb)
+        gs = inv.rendered_guards(do[0].body, do[0].bb)
         skip = any(re.search(r"eq\(&id,&encryption_obj_id\)|Eq\(id,encryption_obj_id\)", g) and tr is False for g, tr in gs) or any("encryption_obj_id" in g for g, tr in gs)
+        if not skip and do[0].body is not dr:
+            # the loop is an iterator chain: a `filter` whose closure compares with the captured id of the encryption dictionary
+            for x in drc:
+                if x.kind == "Closure" and any(nm == "encryption_obj_id" for nm, _pl in x.upvars) and x.lty(0) == "bool":
+                    made = site(type("C", (), {"body": x, "bb": 0})())
+                    used = [c for c in dr.calls if re.search(r"iter::Iterator::filter$", c.fn or "")]
+                    if made is not None and used:
+                        skip = True
     ctx.ob("R-ORDER", "encrypt-dict-skipped|decrypt_raw", skip, "the loop does not decrypt the encryption dictionary itself", dr.where(),
            what="decrypt_raw no longer skips the encryption dictionary object in its loop")
-    ctx.ob("R-ORDER", "decrypt-loop-before-objstm-merge", len(do) == 1 and all(not dr.can_reach(c.bb, do[0].bb) for c in lib.local_calls(F, dr, "ObjectStream::new")),
+    osn = [c for x in drc for c in x.calls if c.local and c.cname.endswith("ObjectStream::new")]
+    ctx.ob("R-ORDER", "decrypt-loop-before-objstm-merge", len(do) == 1 and site(do[0]) is not None and all(site(c) is not None and site(c) != site(do[0]) and not dr.can_reach(site(c), site(do[0])) for c in osn),
            "object streams are expanded after the decryption loop", dr.where(), what="decrypt_raw expands object streams before their containers were decrypted")
     add_only_merge(ctx, F, "Document::decrypt_raw", "the members of decrypted object streams")
     # 5a. both password kinds
@@ -226,7 +247,9 @@ def run(ctx):
             lo, lu = o[0].dest["l"], u[0].dest["l"]
             se = [(org, x) for org, x in lib.success_edges(b) if org & {lo, lu}]
             rets = [bi for bi, _s in lib.blocks_assigning_ret_variant(b, "Ok")]
-            covered = all(any(x == r or b.dominates(x, r) for _org, x in se) for r in rets)
+            # every way to an Ok return passes one of those edges (an or-pattern arm is entered from several of them)
+            sx = {x for _org, x in se}
+            covered = all(r in sx or (r != 0 and not b.can_reach(0, r, avoid=sx)) for r in rets)
             ok = bool(rets) and covered and any(lo in org for org, _x in se) and any(lu in org for org, _x in se)
             if not rets:
                 # the combined result is returned as it is (`a.or(b).map_err(..)`): the return place carries both outcomes
